@@ -107,7 +107,9 @@ TChecks(n) ==
       e3 == FnErr(outm, DOMAIN outm)
       e4 == IF refc[1] THEN NoErr ELSE refc[2]
       e5 == FnErr(refm, DOMAIN refm)
-  IN IF e1 # NoErr THEN e1 ELSE IF e2 # NoErr THEN e2 ELSE IF e3 # NoErr THEN e3 ELSE IF e4 # NoErr THEN e4 ELSE e5
+      e0 == FirstErr(SubSeq(base, 1, 2))
+      \* which messages a step waits for (C03: the phase-determined step of a blocking connection) is judged before the times derived from them (C04)
+  IN IF e0 # NoErr THEN e0 ELSE IF e2 # NoErr THEN e2 ELSE IF e1 # NoErr THEN e1 ELSE IF e3 # NoErr THEN e3 ELSE IF e4 # NoErr THEN e4 ELSE e5
 
 DoT(n) ==
   LET e == TChecks(n)
